@@ -21,13 +21,17 @@
  *     with the sender's current write state by mx_seal_as() before / between / after its
  *     application data records (the sender's own alone re-runs seal the same records at the same
  *     points, so their sequence numbers advance exactly as in the recording).
+ *   - TLS <= 1.2: application data pipelined directly behind the Finished of the side that finishes FIRST (MatrixSSL itself waits for the
+ *     peer's Finished): the client's first records right behind [ClientKeyExchange][CCS][Finished] of a full handshake (TLS False Start,
+ *     RFC 7918; server-side support is compiled in by default) and, in resumed handshakes, the server's first records behind
+ *     [ServerHello][CCS][Finished].  The records are sealed with the sender's write state by mx_seal_as() as soon as its Finished is encoded.
  * The recording run and every alone re-run see the same augmented stream; the oracle is unchanged. */
 #include "mx_surgeon.h"
 #include <sys/mman.h>
 #include <limits.h>
 
 enum { BAD_NONE = 0, BAD_CA, BAD_NAME };
-enum { AUG_NONE = 0, AUG_CCS_ALL, AUG_CCS_TYP, AUG_CCS_ONE, AUG_ABORT, AUG_HREQ, AUG_RENEG };
+enum { AUG_NONE = 0, AUG_CCS_ALL, AUG_CCS_TYP, AUG_CCS_ONE, AUG_ABORT, AUG_HREQ, AUG_RENEG, AUG_PIPE };
 typedef struct {
     char name[72]; int ver; uint16_t suite; int clientAuth, resumed, ticket, bad;
     int hrr, early;       /* TLS 1.3 flavours: HelloRetryRequest (client's first share is for a group the server lacks), accepted 0-RTT data */
@@ -37,9 +41,10 @@ typedef struct {
     int prot, lvl, desc;  /* AUG_ABORT: sealed under the handshake traffic key or plaintext; alert level / description */
     int athello;          /* AUG_ABORT: replace the first record after the first one whatever its type (ServerHello after HelloRetryRequest) */
     int slots;            /* AUG_HREQ / AUG_RENEG: bit i = before the sender's application record i, bit 3 = after the last */
+    int pipe;             /* AUG_PIPE: number of application records (1..3) the first finisher sends right behind its Finished */
     int roles;            /* roles to re-run alone: bit MX_CLIENT / bit MX_SERVER */
 } scn_t;
-static scn_t scns[400]; static int nscn;
+static scn_t scns[440]; static int nscn;
 static scn_t *add(const char *n, int v, uint16_t s, int ca, int res, int tk, int bad)
 {
     scn_t *x = &scns[nscn++]; memset(x, 0, sizeof *x); snprintf(x->name, sizeof x->name, "%s", n);
@@ -114,11 +119,25 @@ static void build_scenarios(void)
         scn_t *x = derive(&l12[i], "hello-request@%x", sl); x->aug = AUG_HREQ; x->slots = sl;
         if (i < 2 && (sl == 2 || sl == 15 || vf_thorough)) { x = derive(&l12[i], "reneg-client-hello@%x", sl); x->aug = AUG_RENEG; x->slots = sl; }
     }
+    /* ---- TLS <= 1.2: application data pipelined right behind the Finished of the side that finishes first ---- */
+    scn_t p12[6]; int np = 0;
+    { scn_t b; memset(&b, 0, sizeof b); b.roles = 3;
+      b.ver = MX_TLS12; b.suite = 0xc02f; snprintf(b.name, sizeof b.name, "ecdhe-rsa-gcm"); p12[np++] = b;
+      b.ver = MX_TLS11; b.suite = 0x002f; snprintf(b.name, sizeof b.name, "rsa-cbc"); p12[np++] = b;
+      b.ver = MX_TLS12; b.suite = 0x00ae; snprintf(b.name, sizeof b.name, "psk-cbc256"); p12[np++] = b;
+      b.ver = MX_TLS12; b.suite = 0x009c; b.clientAuth = 1; snprintf(b.name, sizeof b.name, "rsa-gcm-clientauth"); p12[np++] = b; b.clientAuth = 0;
+      b.ver = MX_TLS12; b.suite = 0x003c; b.resumed = 1; snprintf(b.name, sizeof b.name, "rsa-cbc-resumed"); p12[np++] = b;
+      b.ver = MX_TLS12; b.suite = 0xc02b; b.resumed = 1; b.ticket = 1; snprintf(b.name, sizeof b.name, "ecdhe-ecdsa-ticket"); p12[np++] = b; }
+    for (int i = 0; i < np; i++) for (int n = 1; n <= 3; n++) {
+        if (!vf_thorough && (n == 3 || (n == 2 && (i == 2 || i == 3)))) continue;
+        scn_t *x = derive(&p12[i], "pipelined-data%d", n); x->aug = AUG_PIPE; x->pipe = n;
+        if (!vf_thorough) x->roles = 1 << (x->resumed ? MX_CLIENT : MX_SERVER);   /* quick: the receiver of the pipelined records only */
+    }
 }
 static const char *aug_class(const scn_t *s)
 {
     switch (s->aug) { case AUG_CCS_ALL: case AUG_CCS_TYP: case AUG_CCS_ONE: return "compat-ccs"; case AUG_ABORT: return s->prot ? "ccs+protected-alert" : "ccs+plaintext-alert";
-                      case AUG_HREQ: return "hello-request"; case AUG_RENEG: return "reneg-client-hello"; default: return NULL; }
+                      case AUG_HREQ: return "hello-request"; case AUG_RENEG: return "reneg-client-hello"; case AUG_PIPE: return "pipelined-app-data"; default: return NULL; }
 }
 
 /* ---- endpoint driver with a fixed application policy ---- */
@@ -140,14 +159,18 @@ typedef struct {
     const scn_t *s;
     int hs_end;       /* raw output offset at which this endpoint's handshake output ended (INT_MAX until known) */
     splice_t sp[6]; int nsp, spdone;
+    int piped;        /* AUG_PIPE: the pipelined records have been sealed */
     int partial;      /* partial-send pattern: 0 = all at once, 1 = one byte at a time, 2 = n-1 then rest, 3 = seeded */
     vf_rng rng;
 } drv_t;
 static const int app_len_heavy[2][3] = { { 1, 700, 16384 }, { 33, 16384, 5000 } };   /* payloads each role submits on completion */
 static const int app_len_light[2][3] = { { 1, 700, 300 }, { 33, 900, 200 } };
 static const int early_len[2] = { 100, 50 };
+static const int pipe_len[3] = { 29, 300, 1 };
+static int pipe_role(const scn_t *s) { return s->resumed ? MX_SERVER : MX_CLIENT; }   /* the side whose Finished goes out first */
+static int pipe_total(const scn_t *s, int role) { int t = 0; if (s->aug == AUG_PIPE && role == pipe_role(s)) for (int i = 0; i < s->pipe; i++) t += pipe_len[i]; return t; }
 static int app_len(const scn_t *s, int role, int i) { return s->light ? app_len_light[role][i] : app_len_heavy[role][i]; }
-static int app_total(const scn_t *s, int role) { return app_len(s, role, 0) + app_len(s, role, 1) + app_len(s, role, 2) + (s->early && role == MX_CLIENT ? early_len[0] + early_len[1] : 0); }
+static int app_total(const scn_t *s, int role) { return app_len(s, role, 0) + app_len(s, role, 1) + app_len(s, role, 2) + (s->early && role == MX_CLIENT ? early_len[0] + early_len[1] : 0) + pipe_total(s, role); }
 
 static void ev(trace_t *t, const char *fmt, ...) { if (t->nev < MAXEV) { va_list ap; va_start(ap, fmt); vsnprintf(t->ev[t->nev++], 24, fmt, ap); va_end(ap); } }
 static void drv_policy(drv_t *d);
@@ -168,9 +191,24 @@ static void drv_splice(drv_t *d, int slot)
     if (n <= 0 || n > (int) sizeof p->b) { ev(d->t, "SPLICEFAIL"); return; }
     p->len = n; p->off = d->t->outlen + e->ssl->outlen; d->nsp++;
 }
+/* the side that finishes first does not wait for the peer's Finished: its first application records go out right behind its own */
+static void drv_pipeline(drv_t *d)
+{
+    const scn_t *s = d->s; mx_ep *e = &d->e;
+    for (int i = 0; i < s->pipe && d->nsp < 6; i++) {
+        unsigned char p[512]; splice_t *sp = &d->sp[d->nsp];
+        mx_payload(p, pipe_len[i], 0x0c18, d->role, 20 + i);
+        int n = mx_seal_as(e, 23, p, pipe_len[i], sp->b);
+        if (n <= 0 || n > (int) sizeof sp->b) { ev(d->t, "SPLICEFAIL"); return; }
+        sp->len = n; sp->off = d->t->outlen + e->ssl->outlen; d->nsp++;
+    }
+}
 static void drv_policy(drv_t *d)
 {
     mx_ep *e = &d->e;
+    if (d->s->aug == AUG_PIPE && !d->piped && d->role == pipe_role(d->s) && !e->dead && (e->ssl->flags & SSL_FLAGS_WRITE_SECURE) && e->ssl->hsState == SSL_HS_FINISHED && e->ssl->outlen > 0) {
+        d->piped = 1; drv_pipeline(d);
+    }
     /* The endpoint that receives spliced HelloRequest / ClientHello records answers each with an alert of the library's own.  Its application is
        a responder: it writes once the peer's data has been delivered (an event with a position in the input stream) - were it to write on
        learning of the completion, the order of its records and those alerts would hinge on which call reports the completion (see below). */
@@ -364,13 +402,13 @@ static void record_run(void *a_)
 }
 
 /* chunkers */
-enum { CH_FLIGHT = 0, CH_FIXED, CH_RECALIGN, CH_STRADDLE, CH_COALESCE, CH_RANDOM, CH_INSCUT_A, CH_INSCUT_B, CH_INSTRICKLE };
+enum { CH_FLIGHT = 0, CH_FIXED, CH_RECALIGN, CH_STRADDLE, CH_COALESCE, CH_RANDOM, CH_INSCUT_A, CH_INSCUT_B, CH_INSTRICKLE, CH_SHIFT };
 typedef struct { const scn_t *s; int role; int kind, arg, partial; } alone_arg;
 static const char *chunk_class(const alone_arg *a)
 {
     if (a->partial) return a->partial == 1 ? "partial-send-1" : a->partial == 2 ? "partial-send-n-1" : "partial-send-random";
     switch (a->kind) { case CH_FLIGHT: return "flight"; case CH_FIXED: return a->arg == 1 ? "byte-at-a-time" : a->arg == 5 ? "header-size" : a->arg < 10 ? "tiny-fixed" : "fixed"; case CH_RECALIGN: return "record-aligned";
-                       case CH_STRADDLE: return "record-straddling"; case CH_COALESCE: return "coalesced"; case CH_INSCUT_A: case CH_INSCUT_B: return "cut-at-spliced-record"; case CH_INSTRICKLE: return "trickle-behind-spliced-record";
+                       case CH_STRADDLE: return "record-straddling"; case CH_COALESCE: return "coalesced"; case CH_INSCUT_A: case CH_INSCUT_B: return "cut-at-spliced-record"; case CH_INSTRICKLE: return "trickle-behind-spliced-record"; case CH_SHIFT: return "record-shifted";
                        default: return "random"; }
 }
 /* feed one endpoint its recorded input stream under the partition of `a`, never earlier than causally possible */
@@ -405,6 +443,7 @@ static void drive(drv_t *Dp, const alone_arg *a)
             if (cut < 1) cut = 1;
             if (cut < n) n = cut;
             break; }
+        case CH_SHIFT: { int c = rend + a->arg; if (c > pos && c - pos < n) n = c - pos; break; }   /* every call ends arg bytes into the NEXT record: [rest of record i][first arg bytes of record i+1] */
         case CH_COALESCE: coal = 1; break;
         case CH_RANDOM: n = 1 + (int) vf_below(&g, n > 3000 ? 3000 : n); break;
         case CH_INSCUT_A: case CH_INSCUT_B:   /* whole flights, but one cut at a fixed distance from the start / the end of every spliced group */
@@ -550,17 +589,19 @@ int main(int argc, char **argv)
             memcpy(&ref, &SH->alone, sizeof ref);
             if (ref.outlen != SH->ref[role].outlen || memcmp(ref.out, SH->ref[role].out, ref.outlen)) { vf_incon("alone reference run of %s role %d is not reproducible (%d vs %d output bytes): determinism not achieved", sname, role, ref.outlen, SH->ref[role].outlen); continue; }
             /* the variants */
-            static alone_arg v[400]; int nv = 0;
+            static alone_arg v[700]; int nv = 0;
             static const int fx_q[] = { 1, 2, 3, 4, 5, 6, 7, 8, 9, 13, 16, 64, 511, 1000 };
             for (int i = 0; i < 14; i++) v[nv++] = (alone_arg) { s, role, CH_FIXED, fx_q[i], 0 };
             if (vf_thorough) for (int f = 10; f < 60; f++) v[nv++] = (alone_arg) { s, role, CH_FIXED, f, 0 };
             v[nv++] = (alone_arg) { s, role, CH_RECALIGN, 0, 0 };
             for (int c = 1; c <= 7; c++) v[nv++] = (alone_arg) { s, role, CH_STRADDLE, c, 0 };
+            for (int c = 1; c <= (vf_thorough ? 9 : 5); c++) v[nv++] = (alone_arg) { s, role, CH_SHIFT, c, 0 };
             v[nv++] = (alone_arg) { s, role, CH_COALESCE, 0, 0 };
             for (int r = 0; r < (vf_thorough ? 40 : 6); r++) v[nv++] = (alone_arg) { s, role, CH_RANDOM, r, 0 };
             for (int p = 1; p <= 3; p++) { v[nv++] = (alone_arg) { s, role, CH_FLIGHT, 0, p }; v[nv++] = (alone_arg) { s, role, CH_FIXED, 7, p }; v[nv++] = (alone_arg) { s, role, CH_RANDOM, 50 + p, p }; }
             if (nins) {   /* every split point around the spliced records */
-                for (int k = -2; k <= (maxg < 14 ? maxg + 2 : 8); k++) if (k) v[nv++] = (alone_arg) { s, role, CH_INSCUT_A, k, 0 };
+                int kmax = maxg < 14 ? maxg + 2 : 8; if (s->aug == AUG_PIPE && vf_thorough) kmax = maxg < 420 ? maxg + 2 : 420;   /* thorough: every cut position inside the pipelined records */
+                for (int k = -2; k <= kmax; k++) if (k) v[nv++] = (alone_arg) { s, role, CH_INSCUT_A, k, 0 };
                 for (int k = -2; k <= 8; k++) if (k) v[nv++] = (alone_arg) { s, role, CH_INSCUT_B, k, 0 };
                 static const int tk[] = { 1, 2, 4, 5, 6, 9 };
                 for (int i = 0; i < 6; i++) for (int st = 1; st <= 3; st += 2) v[nv++] = (alone_arg) { s, role, CH_INSTRICKLE, (st - 1) * 100 + tk[i], 0 };
